@@ -236,6 +236,10 @@ pub enum Op {
     SizeHint,
     /// clone the iterator (where the type supports it) and continue on the clone
     Fork,
+    /// Iterator::nth(n): skips n items and returns the next one (an override may take a shortcut)
+    Nth(u8),
+    /// Iterator::last-free probes of adaptors built on the remaining items: count of `by_ref().skip(n)`
+    SkipCount(u8),
 }
 
 #[derive(Clone, Copy, Debug, Serialize, Deserialize, PartialEq)]
@@ -261,7 +265,7 @@ fn history_strategy(max_len: usize) -> impl Strategy<Value = History> {
         prop_oneof![3 => Just(Which::View), 1 => Just(Which::Axis), 1 => Just(Which::Indices), 1 => Just(Which::Frequencies)],
         any::<u16>(),
         any::<u16>(),
-        prop::collection::vec(prop_oneof![6 => Just(Op::Next), 2 => Just(Op::Len), 1 => Just(Op::SizeHint), 1 => Just(Op::Fork)], 0..80),
+        prop::collection::vec(prop_oneof![6 => Just(Op::Next), 2 => Just(Op::Len), 1 => Just(Op::SizeHint), 1 => Just(Op::Fork), 1 => (0u8..12).prop_map(Op::Nth), 1 => (0u8..12).prop_map(Op::SkipCount)], 0..80),
         0usize..6,
     )
         .prop_map(|(shape, which, axis_draw, pos_draw, mut ops, tail)| {
@@ -317,6 +321,27 @@ where
                 if let Some(f) = fork {
                     it = g(&format!("{what}: clone at step {step}"), || f(&it))?;
                 }
+            }
+            Op::Nth(k) => {
+                let k = *k as usize;
+                let got = g(&format!("{what}: nth({k}) at step {step}"), || it.nth(k))?;
+                if pos + k < expected.len() {
+                    match &got {
+                        Some(x) if same(x, &expected[pos + k]) => {}
+                        other => fail!("{what}: step {step}: nth({k}) = {other:?}, expected Some({:?})", expected[pos + k]),
+                    }
+                    pos += k + 1;
+                } else {
+                    ensure!(got.is_none(), "{what}: step {step}: nth({k}) = {got:?} with only {remaining} items left");
+                    pos = expected.len();
+                    after_end += 1;
+                }
+            }
+            Op::SkipCount(k) => {
+                let k = *k as usize;
+                let n = g(&format!("{what}: by_ref().skip({k}).count() at step {step}"), || it.by_ref().skip(k).count())?;
+                ensure!(n == remaining.saturating_sub(k), "{what}: step {step}: skip({k}).count() = {n} with {remaining} items left");
+                pos = expected.len();
             }
         }
     }
@@ -393,7 +418,7 @@ pub fn check(ctx: &Ctx) -> Check {
         }),
         Box::new(RandomPart {
             name: "histories",
-            rule: "random call histories (next/len/size_hint/clone) on view::Iter, AxisIter, IndicesIter, FrequenciesIter over random shapes (1..5 axes, lengths 1..6), interpreted against the expected item list; non-trivial = >=2 calls of next() after exhaustion; distinct by (shape, iterator, history)",
+            rule: "random call histories (next/len/size_hint/clone/nth/skip) on view::Iter, AxisIter, IndicesIter, FrequenciesIter over random shapes (1..5 axes, lengths 1..6), interpreted against the expected item list; non-trivial = >=2 calls of next() after exhaustion; distinct by (shape, iterator, history)",
             cases: ctx.tier.pick(100_000, 10_000_000),
             strategy: Box::new(|| history_strategy(6).boxed()),
             eval: Box::new(eval_history),
